@@ -611,13 +611,33 @@ func runKv(ctx *Ctx, kind string) {
 		// 1 ms ahead must still be gone once the expiry has passed.
 		kvSubMs(ctx)
 	}
+	// 4d. keys with leading slashes, no two of which differ ONLY in their leading slashes: every operation
+	// that names a key (Get and GetMany alike) must address the same record.  ListKeys is left out here: on
+	// Redis it reports such keys without their leading slashes (part of known finding KF-2, see "slash" below)
+	leadKeys := []string{"/s", "//t", "/cfg/a", "u"}
+	for c := 0; c < n/4; c++ {
+		var ops []string
+		for _, o := range kvGen(ctx, ctx.Rnd.Range(5, 40), true, leadKeys) {
+			if f := strings.Fields(o); len(f) > 1 && f[1] != "list" {
+				ops = append(ops, o)
+			}
+		}
+		kvRunCase(ctx, kind, "", ops)
+	}
 	if kind == "redis" && ctx.Focus != "C06" && ctx.Focus != "C02" {
-		// keys with a leading '/' (known finding KF-2: aliased by rKey)
+		// keys with a leading '/' that DO alias each other (known finding KF-2: rKey strips leading slashes).  The
+		// Redis model carries that normalisation, so the code is still held to it operation by operation: a listed
+		// known finding covers only the answers which that model predicts and the contract does not
 		for _, ops := range [][]string{
 			{"0 put /s x -", "0 get s", "0 get /s", "0 list *"},
 			{"0 create s x -", "0 create /s y -", "0 delete //s", "0 get s"},
+			{"0 put /s x -", "0 getmany s,/s,//s", "0 put s y -", "0 getmany /s,s", "0 list /*", "0 list s*"},
 		} {
 			kvRunCase(ctx, kind, "slash", ops)
+		}
+		aliasKeys := []string{"s", "/s", "//s", "/cfg/a", "cfg/a"}
+		for c := 0; c < n/4; c++ {
+			kvRunCase(ctx, kind, "slash", kvGen(ctx, ctx.Rnd.Range(5, 40), true, aliasKeys))
 		}
 	}
 }
